@@ -16,7 +16,8 @@ from harness.util import call, req, fmt
 
 PID = "C20"
 LEVEL = "exploration"
-RULE = ("Hypothesis draws 5..120 (thorough ..400) int16 observations (classes random / seasonal / constant / linear in day number), mark "
+RULE = ("[sixth seeded round] sub-check 'joint': two lazy whitint results of one dask cube under two labelings with equally many periods, evaluated in one graph, must each equal their in-memory result. " +
+        "Hypothesis draws 5..120 (thorough ..400) int16 observations (classes random / seasonal / constant / linear in day number), mark "
         "spacings regular 5/8/10/16 days or irregular 1..20 days, 0..15 lead and tail days (daily length <= 4000), and contiguous daily "
         "labelings (pentad-, dekad-, month-like or irregular runs; label values ascending, descending or wrapping like dekad-of-year), through ops.tinterpolate and DataArray.hdc.whit.whitint. Oracle: "
         "independent daily-curve model (scatter, LAPACK solve with lambda=1e-5 and weight only on marks, means over runs of equal labels, "
@@ -143,7 +144,34 @@ def sub_accessor(case):
     return sub_kernel(case, via_accessor=True)
 
 
-SUBS = {"kernel": sub_kernel, "accessor": sub_accessor}
+def sub_joint(case):
+    """Two lazy whitint results of ONE dask-backed cube and one template under two different labelings with the same number of
+    periods, evaluated in one graph (dask.compute(a, b), as a Dataset would): each must equal its own in-memory result."""
+    import dask
+
+    x = np.array(case["x"], dtype="int16")
+    pos, template, labels, bounds = _layout(case)
+    labels2 = (int(labels.max()) + int(labels.min()) - labels[::-1]).astype(labels.dtype)  # the same run lengths in reverse order
+    npx = case.get("npx", 2)
+    cube = np.stack([np.roll(x, k) for k in range(npx)]).reshape(npx, 1, x.size)
+    da = xr.DataArray(cube, dims=("y", "x", "time"), coords={"time": pd.date_range("2000-01-01", periods=x.size, freq="D")})
+    da = da.transpose(*case.get("dims", ["time", "y", "x"]))
+    ea = call("whitint", lambda: da.hdc.whit.whitint(labels, template))
+    eb = call("whitint", lambda: da.hdc.whit.whitint(labels2, template))
+    lz = da.chunk({"y": 1, "x": -1, "time": -1})
+    la = call("whitint (lazy)", lambda: lz.hdc.whit.whitint(labels, template))
+    lb = call("whitint (lazy)", lambda: lz.hdc.whit.whitint(labels2, template))
+    with dask.config.set(scheduler="synchronous"):
+        ca, cb = call("dask.compute(a, b)", lambda: dask.compute(la, lb))
+    for nm, e, c in (("first", ea, ca), ("second", eb, cb)):
+        req(e.dims == c.dims and e.dtype == c.dtype and e.shape == c.shape, "whitint lazy vs eager: dims/dtype/shape %s %s %s vs %s %s %s" % (
+            e.dims, e.dtype, e.shape, c.dims, c.dtype, c.shape), "whitint lazy shape")
+        req(np.array_equal(e.values, c.values), "two lazy whitint results (labelings with run lengths %s and reversed) evaluated in one graph: the %s differs from its "
+            "in-memory result: %s vs %s" % (fmt([b[1] - b[0] + 1 for b in bounds], 10), nm, fmt(c.values.ravel(), 12), fmt(e.values.ravel(), 12)), "joint lazy whitint results mixed up")
+    return "labelings_coincide" if np.array_equal(labels, labels2) or np.array_equal(ea.values, eb.values) else None
+
+
+SUBS = {"kernel": sub_kernel, "accessor": sub_accessor, "joint": sub_joint}
 
 
 @st.composite
@@ -223,6 +251,14 @@ def run(ctx):
         rec.case("accessor", case, nontrivial=why is None, cls=["kind:" + case["kind"], "dims:" + "/".join(case["dims"])])
 
     ctx.given("accessor", tcase(60, accessor=True), ctx.n(400, 4000), fn=f_a)
+
+    def f_j(case):
+        why = sub_joint(case)
+        if why:
+            rec.discard("joint", why)
+        rec.case("joint", case, nontrivial=why is None, cls=["kind:" + case["kind"], "labeling:" + case["labeling"]])
+
+    ctx.given("joint", tcase(40, accessor=True).filter(lambda c: c["kind"] != "constant"), ctx.n(120, 1500), fn=f_j)
 
 
 from harness import history as _history  # noqa: E402
